@@ -46,7 +46,7 @@ def integerise(Q, Ts, rc, n_bins, n_median_bins):
     Qc = numpy.ascontiguousarray(Q)
     nq = Q.shape[1]
     nt = T.shape[1]
-    gamma = numpy.zeros((nt, nq)); gamma_int = numpy.zeros((nt, nq), dtype="int8")
+    gamma = numpy.zeros((nt, nq)); gamma_int = numpy.zeros((nt, nq), dtype="int64")      # the mirror keeps the integers exactly (no narrow dtype)
     f = numpy.zeros((nq, n_bins + 1)); med = numpy.zeros(nq); mb = numpy.zeros((n_median_bins, 2))
     zr = []
     for i in range(nq):
@@ -113,15 +113,39 @@ def gen_case(rng, cid, big=False):
     self_idx = 0
     if rng.random() < 0.3:
         k = rng.randrange(len(ts)); ts[k] = [list(c) for c in q]; self_idx = k + 1
-    return dict(id=cid, q=q, ts=ts, rc=rc, n_bins=rng.choice([10, 20, 50, 100, 200]) if big else rng.choice([10, 20, 30, 50]),
+    return dict(id=cid, q=q, ts=ts, rc=rc, n_bins=rng.choice([10, 20, 50, 100, 200]) if big else rng.choice([10, 20, 30, 50, 100, 200]),
                 checkp=not big, self=self_idx)
+
+
+def wide_case(rng, cid):
+    """many score bins with similarities spread over the whole range: the pooled target columns are dominated by one letter the
+    query never uses, so every query column's median similarity is its minimum, the offset is 0 and integerised similarities
+    reach n_score_bins - 1 (beyond a narrow integer type)"""
+    dom = rng.randrange(4)
+    others = [k for k in range(4) if k != dom]
+
+    def onehot(k):
+        v = [0, 0, 0, 0]; v[k] = 8
+        return v
+    nq = rng.randint(2, 6)
+    q = [onehot(rng.choice(others)) for _ in range(nq)]
+    ts = [[list(c) for c in q]]
+    for _ in range(rng.randint(1, 2)):
+        ts.append([onehot(dom) for _ in range(rng.randint(nq + 1, 2 * nq))])
+    if rng.random() < 0.5:
+        ts.append([onehot(rng.choice(others)) for _ in range(rng.randint(1, 2))])
+    rng.shuffle(ts)
+    return dict(id=cid, q=q, ts=ts, rc=False, n_bins=rng.choice([150, 200]), checkp=False, self=0)
 
 
 def handler(case):
     rng = random.Random(case["seed"])
     out = []
     for k in range(case["n"]):
-        c = gen_case(rng, case["id"] * 100000 + k, big=case.get("big", False) and k % 2 == 1)
+        if k % 10 == 3:
+            c = wide_case(rng, case["id"] * 100000 + k)
+        else:
+            c = gen_case(rng, case["id"] * 100000 + k, big=case.get("big", False) and (k % 2 == 1 if case["n"] > 100 else k % 5 == 4))
         Q = to_arr(c["q"]); Ts = [to_arr(t) for t in c["ts"]]
         ig = integerise(Q, Ts, c["rc"], c["n_bins"], 1000)
         if ig is None:
